@@ -238,3 +238,46 @@ Definition view_ip4 (b : list Z) : ip_view :=
   mkIV (ip4_src b) (ip4_dst b) (ip4_proto b) (ip4_ttl b) (ip4_id b) (ip4_payload b).
 Definition view_ip6 (b : list Z) : ip_view :=
   mkIV (ip6_src b) (ip6_dst b) (ip6_nh b) (ip6_hop b) 0 (ip6_payload b).
+
+(* ---------------- route selection (the property text, not an RFC) ----------------
+   "The source is an address of the interface chosen by the first matching route entry."
+   A route entry is (destination, mask, gateway, NIC id); a NIC is (id, its addresses for the
+   queried protocol in order).  An entry is eligible for a query (NIC filter [id], 0 = any; bound
+   local address [laddr], [] = none; destination [raddr], [] = none) when the filter admits its NIC,
+   destination & mask matches, and its NIC exists and has a usable address: the bound address if
+   one is given, otherwise the first address that is neither 0.0.0.0 nor 255.255.255.255. *)
+Definition rt_entry : Type := list Z * list Z * list Z * Z.
+Definition rt_dst (e : rt_entry) : list Z := fst (fst (fst e)).
+Definition rt_mask (e : rt_entry) : list Z := snd (fst (fst e)).
+Definition rt_gw (e : rt_entry) : list Z := snd (fst e).
+Definition rt_nic (e : rt_entry) : Z := snd e.
+Definition rt_iface : Type := Z * list (list Z).
+
+Definition mask_match (e : rt_entry) (a : list Z) : bool :=
+  Nat.eqb (length a) (length (rt_dst e)) &&
+  forallb (fun t => Z.land (fst (fst t)) (snd (fst t)) =? snd t) (combine (combine a (rt_mask e)) (rt_dst e)).
+Definition usable_addr (nics : list rt_iface) (nic : Z) (laddr : list Z) : option (list Z) :=
+  match find (fun n => fst n =? nic) nics with
+  | None => None
+  | Some n =>
+      match laddr with
+      | [] => find (fun a => negb (leq a [255; 255; 255; 255]) && negb (leq a [0; 0; 0; 0])) (snd n)
+      | _ => if existsb (leq laddr) (snd n) then Some laddr else None
+      end
+  end.
+Definition is_some {A} (o : option A) : bool := match o with Some _ => true | None => false end.
+Definition eligible (nics : list rt_iface) (id : Z) (laddr raddr : list Z) (e : rt_entry) : bool :=
+  ((id =? 0) || (id =? rt_nic e)) &&
+  (match raddr with [] => true | _ => mask_match e raddr end) &&
+  is_some (usable_addr nics (rt_nic e) laddr).
+(* the answer the property dictates: None = ErrNoRoute, Some (NIC, source address, next hop) *)
+Definition first_match (table : list rt_entry) (nics : list rt_iface) (id : Z) (laddr raddr : list Z)
+  : option (Z * list Z * list Z) :=
+  match filter (eligible nics id laddr raddr) table with
+  | [] => None
+  | e :: _ =>
+      match usable_addr nics (rt_nic e) laddr with
+      | Some a => Some (rt_nic e, a, rt_gw e)
+      | None => None
+      end
+  end.
